@@ -198,3 +198,32 @@ plan("C17", "c17.py", "logging programs on one MemoryLogger (deferred children, 
      "driver only.",
      "Trusted: unittest.TestCase.assertEqual / assertTrue semantics, pyrsistent PClass construction, encoding assumptions. Termination of the "
      "fromMessages recursion is not proved (depth bounded by the data). Known finding C17-F1 (of_type raises on an unfinished action).")
+
+plan("C09", "c09.py", "every arrival order of every subset of the messages of one, two or three small well-formed tasks (incl. remote sub-tasks), Parser state compared after every single add, on the real code",
+     "Proof, per call (all inputs, no bound): Task.add takes the action branch exactly when the message has a non-null action_type and then starts / "
+     "ends the action one level up, keeping what was already known about it; Task._insert_action stores the node at its level, (re-)links it into its "
+     "parent and every ancestor up to the root (mutual recursion with _ensure_node_parents, termination measure = level length), changes nothing "
+     "outside that path, and applies the completion rule exactly (start and end present, as many children as the end position says, every child "
+     "action already completed -- a loop invariant over the children); completed levels only grow, and only on that path; Parser.add continues the "
+     "stored task of that uuid or starts an empty one, reports the task exactly when this message made its root complete and then drops it, stores it "
+     "otherwise, and leaves all other tasks untouched (interleaving independence per call); parse_stream yields every reported task once, at once and "
+     "in order, then the incomplete tasks of the final parser state, threading one parser value through all messages. "
+     "NOT proved and labelled bounded: that the final state is the same for every arrival order, and that no subset of a well-formed task raises "
+     "(both need the inductive invariant 'a node is stored under the key of its own level'; see DESIGN 17) -- these whole-history clauses are "
+     "decided by exhaustive small-scope enumeration in drivers/c09.py only.",
+     "Trusted: the pyrsistent model (immutable records, functional set/transform/discard/add, TaskLevel keys compared by content, field type checks not "
+     "modelled), prefkeys / lvk definitional axioms, E11 instances for objects stored in containers, the Parser class invariant (side check "
+     "parser_check.py), the consumer of parse_stream does not mutate the input while it is parsed, encoding assumptions.",
+     side_checks=["parser_check.py"])
+
+plan("C01", "c01.py", "small logging programs (lanes/threads, every way of starting, scoping and finishing actions, typed and untyped fields, tracebacks, global fields) -> real FileDestination -> file -> json -> Parser.parse_stream, compared with an independent oracle, on the real code",
+     "Proof for the two ends, per call: on the emitting side the level arithmetic the parser relies on (TaskLevel.child / next_sibling, "
+     "Action._nextTaskLevel: the n-th message of an action carries level ++ [n]); on the parsing side the contracts of C09's function set (a message "
+     "becomes exactly one node at the position its task_level names, linked into its parent chain, nothing else changes; completion rule; one "
+     "task per uuid). The composition -- every program's emitted file parses back to exactly the tree the program executed -- is a whole-program "
+     "statement over emission, JSON encoding (orjson) and parsing that no single contract expresses; it is decided by the bounded driver only "
+     "(labelled bounded, never counted as proved).",
+     "Trusted: as for C09 and C02; the JSON encoder/decoder (bounded differential in drivers/c10.py). The driver's 'odd' families (logging into a "
+     "finished action, reserved field names, a reserved but unused position, schema-violating typed actions) are outside the statement, see "
+     "known_findings.json.",
+     side_checks=["parser_check.py"])
